@@ -123,6 +123,12 @@ namespace lang
     inline void replace_all(std::string& str, const std::string& to_replace,
                             const std::string& replacement)
     {
+        if (to_replace.empty())
+        {
+            // the empty string is found everywhere, replacing it would never end
+            return;
+        }
+
         size_t start_pos = 0;
         while ((start_pos = str.find(to_replace, start_pos)) != std::string::npos)
         {
